@@ -30,6 +30,7 @@ type Op struct {
 	Pre     bool   `json:"pre,omitempty"`     // wait: context already cancelled
 	Dl      int    `json:"dl,omitempty"`      // wait: deadline context (1 = already expired, 2 = expires after 10ms of virtual time)
 	Twice   bool   `json:"twice,omitempty"`   // update: broadcast(); getWaitCh(); broadcast() inside one critical section
+	Panic   bool   `json:"panic,omitempty"`   // update: the callback panics after its broadcast (the caller recovers)
 	Pick    int    `json:"pick,omitempty"`
 }
 
@@ -60,6 +61,7 @@ func genCase(t *rapid.T) Case {
 			}
 		case "update":
 			op.Twice = rapid.IntRange(0, 5).Draw(t, "twice") == 0
+			op.Panic = rapid.IntRange(0, 9).Draw(t, "panic") == 0
 			op.Via = rapid.SampledFrom([]string{"hold", "hold", "try", "async"}).Draw(t, "via")
 			op.Peek = rapid.SampledFrom([]string{"", "", "before", "after"}).Draw(t, "peek")
 		case "cancel":
@@ -146,7 +148,7 @@ func body(c *sched.Ctl, cs Case, v *ev.Verdict) {
 	var waiters []*waiter
 	var chans []handed
 	updLabels := map[string]bool{}
-	window, cancelRace, cleanup, errDuringCancel := false, false, false, false
+	window, cancelRace, cleanup, errDuringCancel, panicked := false, false, false, false, false
 
 	c.OnGrant(func(tk *sched.Ticket) {
 		if tk.Point == "broadcast.lock" && updLabels[tk.Label] {
@@ -296,7 +298,18 @@ func body(c *sched.Ctl, cs Case, v *ev.Verdict) {
 						chans = append(chans, handed{ch, bcount, label + "(after its broadcast)"})
 						hm.Unlock()
 					}
+					if o.Panic {
+						// a fault inside the critical section: the caller recovers; the lock must
+						// not stay held and the broadcast must not be lost
+						panicked = true
+						panic("bcastx: injected panic inside the critical section")
+					}
 				}
+				defer func() {
+					if r := recover(); r != nil && !strings.Contains(fmt.Sprint(r), "bcastx: injected") {
+						panic(r)
+					}
+				}()
 				switch o.Via {
 				case "try":
 					if !b.TryHoldLock(cb) {
@@ -393,6 +406,9 @@ func body(c *sched.Ctl, cs Case, v *ev.Verdict) {
 	}
 	if errDuringCancel {
 		v.Class("predicate-failed-while-context-cancelled")
+	}
+	if panicked {
+		v.Class("callback-panicked-inside-the-critical-section")
 	}
 }
 
